@@ -317,7 +317,7 @@ STATIC char const * _soxr_init(
       (int)ceil(r_spec->coef_size_kbytes * 1000. / (U100_l * (int)sizeof_real));
     double d, epsilon = 0, frac;
     upsample = arbM < 1;
-    for (i = (int)(.5 * arbM), shr = 0; i >>= 1; arbM *= .5, ++shr);
+    for (shr = 0; arbM >= 4; arbM *= .5, ++shr); /* (No int conversion.) */
     preM = upsample || (arbM > 1.5 && arbM < 2);
     postM = 1 + (arbM > 1 && preM), arbM /= postM;
     preL = 1 + (!preM && arbM < 2) + (upsample && mode), arbM *= preL;
